@@ -262,11 +262,14 @@ def _reverse_unflatten(self, args, kwargs, out):
     if dim0 < 0:
         dim0 = out.ndim + dim0
     dim1 = dim0 + len(unflattened_size) - 1
-    if not out.is_locked:
-        unflattened = self.flatten(dim0, dim1)
-        return out.update(unflattened, inplace=False)
+    if dim1 == dim0:
+        # a single-entry unflattened_size did not add any dim: there is nothing to flatten back
+        unflattened = self
     else:
         unflattened = self.flatten(dim0, dim1)
+    if not out.is_locked:
+        return out.update(unflattened, inplace=False)
+    else:
         return out.update_(unflattened)
 
 
